@@ -161,6 +161,14 @@ func (p c01) Gen(seed uint64, tier string, idx int) (*Case, bool) {
 	if src.Chance(1, 3) {
 		c.Aliases = gen.AliasTable(src)
 	}
+	if (c.Reader.Kind == "reader" || c.Reader.Kind == "scanner") && src.Chance(1, 5) {
+		// a source that fails part-way is a source too: whatever is returned (C10 judges that), the call
+		// must not crash, hang or panic
+		c.Reader.FaultAt = src.Intn(len([]rune(c.Src)) + 1)
+		c.Reader.FaultKind = []string{"persistent", "transient", "once-then-eof"}[src.Intn(3)]
+		c.Reader.ErrKind = []string{"", "wraps-eof", "timeout", "unexpected-eof", "uncomparable"}[src.Intn(5)]
+		c.Note += "+read-fault"
+	}
 	c.GenTape = nil // text-level shrinking is used for C01
 	return c, true
 }
